@@ -1,9 +1,9 @@
 SPECIFICATION Spec
 CONSTANTS
-  Contents <- C5
+  Contents <- C12
   BoundModes <- BM1
   MenuKind = "focus"
-  MaxDepth = 4
+  MaxDepth = 3
   StartChain = TRUE
   EmitMin = 0
   Emit = TRUE
